@@ -1,7 +1,8 @@
 /-
 C10 — model of `(*sfnt.Font).Subset` (/repo/subset.go, after the repairs reported with C10:
-cmap read from the ORIGINAL table and built after the glyph list is final, composite closure
-records the component's key, rebuilt GSUB 4.1 subtables are appended, emptied GSUB lookups are
+cmap read from the ORIGINAL table and built after the glyph list is final, GSUB closure and
+composite closure repeated until the glyph list is stable, composite closure records the
+component's key, rebuilt GSUB 4.1 subtables are appended, emptied GSUB lookups are
 kept so that feature → lookup indices stay valid, GPOS 2.1 pairs are renumbered).
 
 Abstract font: a glyph's outline is an opaque `payload`; composites carry the list of component
@@ -77,11 +78,9 @@ deriving Repr
 def Font.glyph (f : Font) (g : Gid) : Glyph := f.glyphs.getD g default
 
 /-- the subset as `Subset` returns it; `order` is the subsetter's final `s.glyphs` (old glyph id of
-every new glyph) and `textGlyphs` its value when `SubsetGsub` returned — neither is stored in the Go
-result, both are used to state the theorems -/
+every new glyph) — not stored in the Go result, used to state the theorems -/
 structure Sub where
   order : List Gid
-  textGlyphs : List Gid
   glyphs : List Glyph
   hasNames : Bool
   cmaps : Option (List (String × CMap))
@@ -138,12 +137,13 @@ structure Rule where
   outs : List Gid
 deriving Repr, DecidableEq
 
-/-- the order in which the `range` loops over coverage maps and `pop(todo)` deliver their keys -/
+/-- the order in which the `range` loops over coverage maps and `pop(todo)` deliver their keys, for
+every round of the outer loop of `Subset` -/
 structure Order where
-  /-- permutation of the rule list built in step 1 -/
-  rules : List Rule → List Rule
-  /-- the keys returned by the successive `pop(todo)` calls -/
-  pops : List Gid
+  /-- round `k`: permutation of the rule list built in step 1 of `addGsubGlyphs` -/
+  rules : Nat → List Rule → List Rule
+  /-- round `k`: the keys returned by the successive `pop(todo)` calls of `addComponents` -/
+  pops : List (List Gid)
 
 /-! ## SubsetGsub -/
 
@@ -246,16 +246,12 @@ def subLookups (s : St) : List (List GsubSub) → St × List (List GsubOut)
     let rr := subLookups r.1 ls
     (rr.1, r.2 :: rr.2)
 
-def subsetGsub (o : Order) (s : St) (l : Layout GsubSub) : Option (St × Layout GsubOut) :=
-  let rules := o.rules (rulesOf l)
-  let work := rules.map fun r => (Int.ofNat (missing s.newGid r.ins), r)
-  match gsubLoop (rules.length + 1) s work with
-  | none => none
-  | some s1 =>
-    let r := subLookups s1 l.lookups
-    some (r.1, ⟨l.features, r.2⟩)
+/-- `addGsubGlyphs`: steps 1 and 2 for one round, the rules delivered in the order `ro` -/
+def gsubClose (ro : List Rule → List Rule) (s : St) (l : Layout GsubSub) : Option St :=
+  let rules := ro (rulesOf l)
+  gsubLoop (rules.length + 1) s (rules.map fun r => (Int.ofNat (missing s.newGid r.ins), r))
 
-/-! ## SubsetGlyf: composite closure -/
+/-! ## addComponents: composite closure -/
 
 /-- the inner loop over the components of a popped glyph; `todo` is a Go map used as a set: here a
 list read only through `contains` and `filter`, so repetitions are immaterial -/
@@ -316,43 +312,60 @@ def subPairs (m : GMap) (ps : Pairs) : Pairs :=
 
 /-! ## Subset -/
 
+/-- the outer loop of `Subset`: `addGsubGlyphs` and `addComponents` are repeated until a round adds
+no glyph; round `k` uses the rule order `ro k` and the `pop` results `pss[k]`.  `none` = the oracle is
+not a run of the code (an illegal or missing `pop` sequence) -/
+def closeAll (f : Font) (ro : Nat → List Rule → List Rule) : Nat → List (List Gid) → St → Option St
+  | _, [], _ => none
+  | k, ps :: rest, s =>
+    let s1? := match f.gsub with
+      | none => some s
+      | some l => gsubClose (ro k) s l
+    match s1? with
+    | none => none
+    | some s1 =>
+      match (if f.isCFF then some s1 else closeGlyf f ps s1 s1.glyphs) with
+      | none => none
+      | some s2 =>
+        if s2.glyphs.length = s.glyphs.length then some s2 else closeAll f ro (k + 1) rest s2
+
+/-- the result record as a function of the final subsetter state -/
+def assemble (f : Font) (s : St) (gsub : Option (Layout GsubOut)) : Sub :=
+  let acc : PrivAcc := if f.isCFF then privLoop f s.glyphs ⟨[], [], []⟩ else ⟨[], [], []⟩
+  { order := s.glyphs
+    glyphs := s.glyphs.map fun g =>
+      if f.isCFF then f.glyph g else fixComponents s.newGid (f.glyph g)
+    hasNames := f.hasNames
+    cmaps := f.cmaps.map fun t => t.map fun kc => (kc.1, subCMap s.newGid kc.2)
+    privates := acc.privates
+    matrices := acc.matrices
+    fdSelect := if f.isCFF then subFdSelect f acc s.glyphs else []
+    encoding := if f.isCFF then
+        f.encoding.map fun e => e.map fun g => (s.newGid.lookup g).getD 0
+      else none
+    gidToCID := if f.isCFF then
+        f.gidToCID.map fun t => s.glyphs.map fun g => t.getD g 0
+      else none
+    gsub := gsub
+    gpos := f.gpos.map fun l => ⟨l.features, l.lookups.map fun subs => subs.map (subPairs s.newGid)⟩ }
+
+/-- step 3 (`SubsetGsub`): rebuild the lookups; the state is threaded because the code calls
+`getNewGid` (which appends nothing here, see `subLookups_closed`) -/
+def rebuildGsub (s : St) : Option (Layout GsubSub) → St × Option (Layout GsubOut)
+  | none => (s, none)
+  | some l =>
+    let r := subLookups s l.lookups
+    (r.1, some ⟨l.features, r.2⟩)
+
 /-- `(*Font).Subset(glyphs)`; `.err "order"` = `o` is not a run of the code on this input;
 `.panic` = an index out of range (a glyph id ≥ the number of glyphs reaches the outlines) -/
 def subset (f : Font) (glyphs : List Gid) (o : Order) : Outcome Sub :=
-  let s0 := St.init glyphs
-  let g1 : Option (St × Option (Layout GsubOut)) :=
-    match f.gsub with
-    | none => some (s0, none)
-    | some l => (subsetGsub o s0 l).map fun r => (r.1, some r.2)
-  match g1 with
+  match closeAll f o.rules 0 o.pops (St.init glyphs) with
   | none => .err "order"
-  | some (s1, gsub) =>
-    let s2? := if f.isCFF then some s1 else closeGlyf f o.pops s1 s1.glyphs
-    match s2? with
-    | none => .err "order"
-    | some s2 =>
-      if s2.glyphs.any (fun g => decide (f.glyphs.length ≤ g)) then .panic "index out of range"
-      else
-        let acc := if f.isCFF then privLoop f s2.glyphs ⟨[], [], []⟩ else ⟨[], [], []⟩
-        .ok {
-          order := s2.glyphs
-          textGlyphs := s1.glyphs
-          glyphs := s2.glyphs.map fun g =>
-            if f.isCFF then f.glyph g else fixComponents s2.newGid (f.glyph g)
-          hasNames := f.hasNames
-          cmaps := f.cmaps.map fun t => t.map fun kc => (kc.1, subCMap s2.newGid kc.2)
-          privates := acc.privates
-          matrices := acc.matrices
-          fdSelect := if f.isCFF then subFdSelect f acc s2.glyphs else []
-          encoding := if f.isCFF then
-              f.encoding.map fun e => e.map fun g => (s2.newGid.lookup g).getD 0
-            else none
-          gidToCID := if f.isCFF then
-              f.gidToCID.map fun t => s2.glyphs.map fun g => t.getD g 0
-            else none
-          gsub := gsub
-          gpos := f.gpos.map fun l => ⟨l.features, l.lookups.map fun subs => subs.map (subPairs s2.newGid)⟩
-        }
+  | some sc =>
+    let r := rebuildGsub sc f.gsub
+    if r.1.glyphs.any (fun g => decide (f.glyphs.length ≤ g)) then .panic "index out of range"
+    else .ok (assemble f r.1 r.2)
 
 /-- the condition of the CFF writer (cff/encoding.go: "encoded glyphs not contiguous"): the glyphs
 that carry a code are exactly 1 … maxGid -/
